@@ -93,8 +93,11 @@ fn gadget_case(s: &mut u64, threads: usize) -> Result<u64, String> {
 
 fn prio3_case(s: &mut u64, threads: usize) -> Result<u64, String> {
     let which = splitmix(s) % 3;
-    let len = 1 + (splitmix(s) % 9) as usize;
-    let chunk = 1 + (splitmix(s) % (len as u64 + 1)) as usize;
+    // natively (pools larger than Miri's 4 threads) also use long vectors with chunk lengths around
+    // and above 64, so that many chunks are in flight per pool
+    let big = threads > 4 && splitmix(s) % 3 == 0;
+    let len = if big { 60 + (splitmix(s) % 80) as usize } else { 1 + (splitmix(s) % 9) as usize };
+    let chunk = if big { 56 + (splitmix(s) % 24) as usize } else { 1 + (splitmix(s) % (len as u64 + 1)) as usize };
     let mut rand = vec![0u8; 2 * 2 * 32];
     for b in rand.iter_mut() {
         *b = splitmix(s) as u8;
